@@ -179,8 +179,9 @@ def run_trtb(case):
             # the committed bucket was short of `size`; it may have been emptied or left alone
             lo, hi = F(0), min(hi, F(size))
         else:
-            # red is decided on the peak bucket alone: nothing is learnt about the committed level
-            lo = F(0)
+            # red: the packet had to wait for peak tokens; it is out of profile and consumes no committed tokens
+            # (two-rate three-colour marking, RFC 2698), so the committed level is left as it was
+            pass
     # green traffic conforms to (CIR, CBS)
     n = len(green_size)
     tol = 0 if exact else Fraction(1, 10 ** 6)
@@ -193,6 +194,8 @@ def run_trtb(case):
                                                          f"{float(green_tau[j] - green_tau[i])}s exceed CBS + CIR*dt/8", "C11.green_conformance")
     classes |= {"colour " + str(c) for c in colours}
     classes.add("with PIR" if pir else "without PIR")
+    if "committed level ambiguous" not in classes and len(colours) >= 2 and pir:
+        classes.add("committed level exactly known throughout")
     return {"nontrivial": len(colours) >= 2 and "delayed by the bucket" in classes, "classes": sorted(classes)}
 
 
@@ -234,7 +237,16 @@ def trtb_strategy(tier):
         return st.tuples(cir, cbs, pf, pbs, wl).map(lambda t: {"exact": exact, "cir": t[0], "cbs": t[1],
                                                                 "pir": None if t[2] is None else t[0] * t[2],
                                                                 "pbs": None if t[2] is None else t[3], "wl": t[4]})
-    return kgen.weighted([(build(True), 4), (build(False), 1)])
+
+    def red_green():
+        """large committed bucket, small peak bucket: packets are red or green, rarely yellow, so the committed level stays
+        exactly known and a wrong committed balance shows in the green/yellow decision"""
+        sizes = st.sampled_from([64, 100, 300, 512, 600, 1000, 1024])
+        wl = netlab.workload([0, 1], n_max=40 if big else 20, exact=True, sizes=sizes, min_size=4, late=False)
+        return st.tuples(netlab.exact_rate(6, 12), st.sampled_from([2048, 3000, 4096]), st.sampled_from([2, 2, 4]),
+                         st.sampled_from([512, 1024, 2048]), wl).map(
+            lambda t: {"exact": True, "cir": t[0], "cbs": t[1], "pir": t[0] * t[2], "pbs": t[3], "wl": t[4]})
+    return kgen.weighted([(build(True), 4), (build(False), 1), (red_green(), 3)])
 
 
 PROP = Property(
@@ -254,7 +266,9 @@ PROP = Property(
               essential=["delayed by the bucket", "undelayed after refill", "size > bucket", "size == tokens", "idle -> cap",
                          "peak spacing binding"]),
         Facet("two_rate", trtb_strategy, run_trtb, quick=1000, thorough=6000,
-              essential=["colour green", "colour yellow", "colour red", "with PIR", "without PIR"]),
+              essential=["colour green", "colour yellow", "colour red", "with PIR", "without PIR",
+                         "committed level exactly known throughout"]),
     ],
-    assumptions=["what a yellow/red packet does to the committed bucket is not specified: tracked as an interval"],
+    assumptions=["what a yellow packet does to the committed bucket is not specified (the code empties it, RFC 2698 leaves it): "
+                 "tracked as an interval; a red packet consumes no committed tokens"],
 )
